@@ -314,3 +314,52 @@ func contractEconomy(ev *vlib.Evidence, prop, driver string, idx int) {
 	}
 	_ = pool.UpdateRequest{}
 }
+
+// contractSnapshots (C10): a balance handed out by the contract-backed store
+// is a snapshot. Later chain events for the same wallet (a top-up, a
+// settlement) and later store operations must not alter it, and the store
+// hands out new values for the new state.
+func contractSnapshots(ev *vlib.Evidence, driver string, idx int) {
+	r := vlib.Rand("contract-snapshots-"+driver, idx)
+	wa := vlib.NewIdentity("cs-wallet", idx%5)
+	w, err := vlib.NewWorld(vlib.WorldOptions{Driver: driver, WithPayment: true, Contract: true, ContractWallets: []*vlib.Identity{wa}})
+	if err != nil {
+		ev.Inconclusive("contract-world")
+		return
+	}
+	defer w.Close()
+	acct := store.Account(wa.Wallet)
+	d1 := big.NewInt(int64(1000000 + r.Intn(1000000)))
+	if err := w.Contract.Deposit(wa, d1); err != nil {
+		ev.Inconclusive("deposit")
+		return
+	}
+	if _, err := w.Contract.AwaitDeposit(wa.Wallet); err != nil {
+		ev.Inconclusive("deposit-not-visible")
+		return
+	}
+	w.RawStore.AddAccountBalance(acct, big.NewInt(int64(1+r.Intn(5000))))
+	held, err := w.Contract.Pay.GetAccountBalance(acct)
+	if err != nil {
+		ev.Inconclusive("balance")
+		return
+	}
+	wantDeposit, wantCredit := held.Deposit.String(), held.Credit.String()
+	desc := fmt.Sprintf("contract-snapshots %s idx=%d", driver, idx)
+	ev.Case(desc, true)
+	ev.Count("contract-snapshots-held", 1)
+	// later: a top-up on chain, more credit in the store, a second top-up
+	w.Contract.Deposit(wa, big.NewInt(int64(777+r.Intn(100000))))
+	w.Contract.AwaitDeposit(wa.Wallet)
+	w.RawStore.AddAccountBalance(acct, big.NewInt(int64(1+r.Intn(5000))))
+	w.Contract.Deposit(wa, big.NewInt(31337))
+	now, _ := w.Contract.AwaitDeposit(wa.Wallet)
+	if held.Deposit.String() != wantDeposit || held.Credit.String() != wantCredit {
+		ev.Violate("snapshot-mutated:contract:GetAccountBalance", map[string]interface{}{"case": desc, "held_deposit_was": wantDeposit, "held_deposit_now": held.Deposit.String(), "held_credit_was": wantCredit, "held_credit_now": held.Credit.String()})
+		return
+	}
+	fresh, err := w.Contract.Pay.GetAccountBalance(acct)
+	if err == nil && now != nil && fresh.Deposit.Cmp(now) != 0 {
+		ev.Violate("contract:balance-does-not-follow-the-chain", map[string]interface{}{"case": desc, "store_reports": fresh.Deposit.String(), "chain_has": now.String()})
+	}
+}
